@@ -1,0 +1,20 @@
+//go:build verif
+
+package proxy
+
+import (
+	"net/http"
+
+	"github.com/fabiolb/fabio/config"
+)
+
+// VerifUint16Base16 exposes uint16base16. Only compiled with the verif build tag.
+func VerifUint16Base16(n uint16) string { return uint16base16(n) }
+
+// VerifI32toa exposes i32toa. Only compiled with the verif build tag.
+func VerifI32toa(n int32) string { return i32toa(n) }
+
+// VerifAddHeaders exposes addHeaders. Only compiled with the verif build tag.
+func VerifAddHeaders(r *http.Request, cfg config.Proxy, stripPath string) error {
+	return addHeaders(r, cfg, stripPath)
+}
